@@ -59,6 +59,8 @@ def decl(a):
     for flag in ("compare", "repr", "init"):
         if not a.get(flag, True):
             args.append(f"{flag}=False")
+    if a.get("via") == "field":            # declared through dataclasses.field(...)
+        return [f"    {n}: {ann} = dataclasses.field({', '.join(args)})"]
     if not args:
         return [f"    {n}: {ann}"]
     return [f"    {n}: {ann} = Attr({', '.join(args)})"]
@@ -97,11 +99,12 @@ def redefault_decl(fam, rd):
         return f"    {n}: {ann} = {v}"
     d = f"default={v}" if k in ("int", "str") or k not in REDEFAULT_VALUE else f"default_factory=lambda: {v}"
     flags = "".join(f", {f}=False" for f in ("compare", "repr", "init") if not rd[f])
-    return f"    {n}: {ann} = Attr({d}{flags})"
+    ctor = "dataclasses.field" if rd.get("via") == "field" else "Attr"
+    return f"    {n}: {ann} = {ctor}({d}{flags})"
 
 
 def family_source(fam):
-    src = ["from typing import Any", "from spec_classes import spec_class, Attr",
+    src = ["import dataclasses", "from typing import Any", "from spec_classes import spec_class, Attr",
            "from spec_classes.types import KeyedList, KeyedSet",
            "import types as M0, json as M1",
            "def F0(): pass", "def F1(): pass", "class K0: pass", "class K1: pass",
@@ -852,12 +855,16 @@ def gen_family(rng, kinds=None, flags=None):
             # init=False only with a scalar default (DESIGN 5 #15: subclass constructors reject others)
             a["init"] = not (k in ("int", "str") and a["default"] and rng.random() < 0.15)
             a["dnc"] = k in ("list", "dict", "spec", "meth") and rng.random() < 0.2
+            if rng.random() < 0.35:
+                a["via"] = "field"
         attrs.append(a)
     sub = []
     if rng.random() < 0.8:
         k = rng.choice(["int", "str", "list", "meth"])
         sub = [{"name": "b0", "kind": k, "compare": rng.random() < 0.7, "repr": rng.random() < 0.7,
                 "default": True, "init": True}]
+        if rng.random() < 0.5:
+            sub[0]["via"] = "field"
     rds = []
     cand = [a for a in attrs if a["kind"] not in ("clsfun", "klist", "kset")]
     if kinds is None and cand and rng.random() < 0.7:
@@ -866,6 +873,8 @@ def gen_family(rng, kinds=None, flags=None):
             rd = {"name": a["name"], "form": form}
             if form == "attr":
                 rd.update(compare=rng.random() < 0.5, repr=rng.random() < 0.5, init=True)
+                if rng.random() < 0.5:
+                    rd["via"] = "field"
             rds.append(rd)
     return {"attrs": attrs, "sub_attrs": sub, "sub_redefault": rds}
 
@@ -1100,40 +1109,46 @@ def generate(rng, tier):
     rkinds = ["int", "str", "list", "func", "dict", "spec"]
     combos3 = list(itertools.product((True, False), repeat=3))
     k = 0
-    for form in ("plain", "annot", "attr"):
-        for cmpf, reprf, initf in combos3:
-            for dnc in ((False, True) if not quick or (cmpf, reprf) == (False, True) else (False,)):
-                kind = rkinds[k % len(rkinds)] if not dnc else ("list", "dict", "spec")[k % 3]
-                k += 1
-                if not initf and kind not in ("int", "str"):
-                    kind = ("int", "str")[k % 2]
-                target = {"name": "a1", "kind": kind, "compare": cmpf, "repr": reprf, "init": initf,
-                          "default": True, "dnc": dnc}
-                fam = {"attrs": [{"name": "a0", "kind": "int", "compare": True, "repr": True, "init": True, "default": True},
-                                 target,
-                                 {"name": "a2", "kind": rng.choice(["str", "meth", "list"]), "compare": False, "repr": True,
-                                  "init": True, "default": True},
-                                 {"name": "a3", "kind": "str", "compare": True, "repr": True, "init": True, "default": False}],
-                       "sub_attrs": [{"name": "b0", "kind": "int", "compare": rng.random() < 0.5, "repr": True,
-                                      "default": True, "init": True}],
-                       "sub_redefault": [dict({"name": "a1", "form": form},
-                                              **({"compare": not cmpf, "repr": reprf, "init": True} if form == "attr" else {}))]}
-                if rng.random() < 0.5:
-                    fam["sub_redefault"].append({"name": "a2", "form": "plain"})
-                fid = add_family(fam)
-                for cname in ("Sub", "Base", "Plain"):
-                    for a, b, which in one_diff_pairs(fam, cname):
-                        cases.append({"kind": "eq", "fam": fid, "a": a, "b": b, "gen": "redefault-one-diff", "diff": which})
-                sts = [gen_state(rng, fam, "Sub") for _ in range(3)]
-                for st in sts:
-                    cases.append({"kind": "dc", "fam": fid, "a": st, "gen": "deepcopy"})
-                    if rebuildable(fam, st):
-                        cases.append({"kind": "rb", "fam": fid, "a": st, "gen": "rebuild"})
-                    cases.append({"kind": "repr", "fam": fid, "gen": "repr-state",
-                                  "graph": {"nodes": [["inst", "Sub", {n: v for n, v in st["attrs"].items()
-                                                                     if v[0] not in ("default", "deleted", "meth", "inner")}]], "root": 0}})
-                a, b = sts[0], sts[1]
-                cases.append({"kind": "tri", "fam": fid, "a": a, "b": json.loads(json.dumps(a)), "c": b, "gen": "equal-triple"})
+    for via in ("attr", "field"):     # Attr(...) and dataclasses.field(...) declarations
+        for form in ("plain", "annot", "attr"):
+            for cmpf, reprf, initf in combos3:
+                for dnc in ((False, True) if not quick or (cmpf, reprf) == (False, True) else (False,)):
+                    kind = rkinds[k % len(rkinds)] if not dnc else ("list", "dict", "spec")[k % 3]
+                    k += 1
+                    if not initf and kind not in ("int", "str"):
+                        kind = ("int", "str")[k % 2]
+                    target = {"name": "a1", "kind": kind, "compare": cmpf, "repr": reprf, "init": initf,
+                              "default": True, "dnc": dnc, "via": via}
+                    fam = {"attrs": [{"name": "a0", "kind": "int", "compare": True, "repr": True, "init": True, "default": True},
+                                     target,
+                                     {"name": "a2", "kind": rng.choice(["str", "meth", "list"]), "compare": False, "repr": True,
+                                      "init": True, "default": True},
+                                     {"name": "a3", "kind": "str", "compare": True, "repr": True, "init": True, "default": False}],
+                           "sub_attrs": [{"name": "b0", "kind": "int", "compare": (k % 2 == 0), "repr": (k % 2 == 1) if via == "field" else True,
+                                          "default": True, "init": True, "via": via}],
+                           "sub_redefault": [dict({"name": "a1", "form": form},
+                                                  **({"compare": not cmpf, "repr": reprf, "init": True, "via": via} if form == "attr" else {}))]}
+                    if rng.random() < 0.5:
+                        fam["sub_redefault"].append({"name": "a2", "form": "plain"})
+                    fid = add_family(fam)
+                    for cname in ("Sub", "Base", "Plain"):
+                        for a, b, which in one_diff_pairs(fam, cname):
+                            cases.append({"kind": "eq", "fam": fid, "a": a, "b": b, "gen": "redefault-one-diff", "diff": which})
+                    sts = [gen_state(rng, fam, "Sub") for _ in range(3)]
+                    for st in sts:
+                        cases.append({"kind": "dc", "fam": fid, "a": st, "gen": "deepcopy"})
+                        if rebuildable(fam, st):
+                            cases.append({"kind": "rb", "fam": fid, "a": st, "gen": "rebuild"})
+                        cases.append({"kind": "repr", "fam": fid, "gen": "repr-state",
+                                      "graph": {"nodes": [["inst", "Sub", {n: v for n, v in st["attrs"].items()
+                                                                         if v[0] not in ("default", "deleted", "meth", "inner")}]], "root": 0}})
+                    for cname in ("Base", "Plain"):
+                        st = gen_state(rng, fam, cname)
+                        cases.append({"kind": "repr", "fam": fid, "gen": "repr-state",
+                                      "graph": {"nodes": [["inst", cname, {n: v for n, v in st["attrs"].items()
+                                                                          if v[0] not in ("default", "deleted", "meth", "inner")}]], "root": 0}})
+                    a, b = sts[0], sts[1]
+                    cases.append({"kind": "tri", "fam": fid, "a": a, "b": json.loads(json.dumps(a)), "c": b, "gen": "equal-triple"})
     # pairs that differ in exactly one attribute: every position, every combination of
     # kinds before it (all kind tuples of length <= 3 in thorough; sampled in quick)
     combos = [list(t) for n in (1, 2, 3) for t in itertools.product(KINDS, repeat=n)]
